@@ -57,7 +57,13 @@ func (e *Exec) instr(fr *Frame, ins ssa.Instruction, st *State, g string) {
 		v.Ty = x.Type()
 		fr.vals[x] = v
 	case *ssa.MakeInterface:
-		fr.vals[x] = Val{T: e.Out.Define(fr.prefix+x.Name(), SAny, e.box(e.val(fr, x.X), x.X.Type())), S: SAny, Ty: x.Type()}
+		inner := e.val(fr, x.X)
+		sym := e.Out.Define(fr.prefix+x.Name(), SAny, e.box(inner, x.X.Type()))
+		if e.boxInfo == nil {
+			e.boxInfo = map[string]boxRec{}
+		}
+		e.boxInfo[sym] = boxRec{x.X.Type(), e.scalar(inner)}
+		fr.vals[x] = Val{T: sym, S: SAny, Ty: x.Type()}
 	case *ssa.TypeAssert:
 		e.doTypeAssert(fr, x, st, g)
 	case *ssa.Extract:
@@ -783,14 +789,21 @@ func (e *Exec) snapshotBytes(sl string, st *State) string {
 	h, hs := e.elemHeap(types.Typ[types.Uint8])
 	heap := e.get(st, h, hs)
 	key := "snap|" + sl + "|" + heap
-	if e.boxed[key] {
-		// reuse by deterministic name
+	if e.snapCache == nil {
+		e.snapCache = map[string]string{}
 	}
+	if sym, ok := e.snapCache[key]; ok {
+		if _, live := e.Out.declared[sym]; live {
+			return sym
+		}
+	}
+	defer func() {}()
 	b := e.Out.Fresh("bytes", SBytes)
 	i := e.Out.FreshName("i")
 	row := Sel(heap, "(s_base "+sl+")")
 	e.Out.Assert(Eq("(blen "+b+")", "(s_len "+sl+")"))
 	e.Out.Assert("(forall ((" + i + " Int)) (! (= (select (barr " + b + ") " + i + ") (ite (and (<= 0 " + i + ") (< " + i + " (s_len " + sl + "))) (select " + row + " (+ (s_off " + sl + ") " + i + ")) 0)) :pattern ((select (barr " + b + ") " + i + "))))")
+	e.snapCache[key] = b
 	return b
 }
 
